@@ -64,6 +64,7 @@ class ScriptedSource(ScheduleSource):
         self._live: List[Any] = []
         self.post_fail: set = set()
         self.hook_kind = "sync"
+        self.fail_exc = "message"
         self._k = 0
 
     async def add_schedule(self, schedule: ScheduledTask) -> None:
@@ -110,7 +111,8 @@ class ScriptedSource(ScheduleSource):
             await asyncio.sleep(self.list_latency)    # a source that needs I/O to answer
         self.polls[-1]["ret"] = self.now_us()
         if failed:
-            raise RuntimeError("source down")
+            # what a failing source raises: with a message, or bare (asyncio.wait_for's TimeoutError(), `raise ConnectionResetError`)
+            raise {"bare_timeout": asyncio.TimeoutError, "bare_keyerror": KeyError, "bare_conn": ConnectionResetError}.get(self.fail_exc, lambda: RuntimeError("source down"))()
         by = {e["id"]: e for e in self.entries}
         if self.live_list:
             # a source that hands out its own internal list (not a copy) and edits it in place when a one-shot was sent
@@ -237,6 +239,7 @@ def run_sched(case: Dict[str, Any]) -> Dict[str, Any]:
                 src.live_list = bool(s.get("live_list"))
                 src.post_fail = set(s.get("post_fail", ()))
                 src.hook_kind = s.get("hook_kind", "sync")
+                src.fail_exc = s.get("fail_exc", "message")
                 srcs.append(src)
         sched = TaskiqScheduler(b, srcs)
         end_s = ((base_us // MIN_US + case["horizon_min"]) * MIN_US + 30 * 10**6 - base_us) / 1e6
